@@ -22,26 +22,26 @@ instance elemMemDec (e : Elem) (l : List Elem) : Decidable (e ∈ l) :=
 def m2lCode (D ℓ t s : Nat) : Nat := code7 (vsub (toI (decode D ℓ s)) (toI (decode D ℓ t)))
 
 /-- what the transfer phase puts into the local `(ℓ, i)` when the multipoles hold `q` once in the ancestors of `b` -/
-def Aval (D L u : Nat) (cellsAt : Nat → List Nat) (b : Nat) (ℓ i : Nat) : Nat :=
+def Aval (D L u : Nat) (cellsT cellsS : Nat → List Nat) (b : Nat) (ℓ i : Nat) : Nat :=
   if u ≤ ℓ ∧ ℓ ≤ L then
-    (if Elem.m2l ℓ i (anc D L ℓ b) (m2lCode D ℓ i (anc D L ℓ b)) ∈ specM2LLevel D false ℓ (cellsAt ℓ) (cellsAt ℓ) then 1 else 0)
+    (if Elem.m2l ℓ i (anc D L ℓ b) (m2lCode D ℓ i (anc D L ℓ b)) ∈ specM2LLevel D false ℓ (cellsT ℓ) (cellsS ℓ) then 1 else 0)
   else 0
 
 section
-variable (q : Nat) (D L : Nat) (po : Nat → List Nat) (cellsAt : Nat → List Nat) (b : Nat)
-  (hnd : ∀ ℓ, (cellsAt ℓ).Nodup)
+variable (q : Nat) (D L : Nat) (po po' : Nat → List Nat) (cellsT cellsS : Nat → List Nat) (b : Nat)
+  (hndT : ∀ ℓ, (cellsT ℓ).Nodup) (hndS : ∀ ℓ, (cellsS ℓ).Nodup)
 
-include hnd
+include hndT hndS
 
 /-- the contribution of one level's specification list to the local `(ℓ, i)` -/
 theorem spec_level_sum (s : State) (ℓ' ℓ i : Nat) (hm : ∀ j, s.m ℓ' j = if j = anc D L ℓ' b then 1 else 0) :
-    sumOver (specM2LLevel D false ℓ' (cellsAt ℓ') (cellsAt ℓ')) (cL s ℓ i) =
-      if ℓ' = ℓ then (if Elem.m2l ℓ i (anc D L ℓ b) (m2lCode D ℓ i (anc D L ℓ b)) ∈ specM2LLevel D false ℓ (cellsAt ℓ) (cellsAt ℓ) then 1 else 0) else 0 := by
+    sumOver (specM2LLevel D false ℓ' (cellsT ℓ') (cellsS ℓ')) (cL s ℓ i) =
+      if ℓ' = ℓ then (if Elem.m2l ℓ i (anc D L ℓ b) (m2lCode D ℓ i (anc D L ℓ b)) ∈ specM2LLevel D false ℓ (cellsT ℓ) (cellsS ℓ) then 1 else 0) else 0 := by
   by_cases h : ℓ' = ℓ
   · subst h
     rw [if_pos rfl]
-    have e : sumOver (specM2LLevel D false ℓ' (cellsAt ℓ') (cellsAt ℓ')) (cL s ℓ' i) =
-        sumOver (specM2LLevel D false ℓ' (cellsAt ℓ') (cellsAt ℓ'))
+    have e : sumOver (specM2LLevel D false ℓ' (cellsT ℓ') (cellsS ℓ')) (cL s ℓ' i) =
+        sumOver (specM2LLevel D false ℓ' (cellsT ℓ') (cellsS ℓ'))
           (fun e => if e = Elem.m2l ℓ' i (anc D L ℓ' b) (m2lCode D ℓ' i (anc D L ℓ' b)) then 1 else 0) := by
       apply sumOver_congr
       intro e he
@@ -60,8 +60,8 @@ theorem spec_level_sum (s : State) (ℓ' ℓ i : Nat) (hm : ∀ j, s.m ℓ' j = 
             Elem.m2l ℓ' i (anc D L ℓ' b) (m2lCode D ℓ' i (anc D L ℓ' b)) := by
           intro e; injection e with _ e2 _ _; exact h1 e2
         simp [h3, this]
-    rw [e, sumOver_indicator _ (specM2L_np_nodup D ℓ' _ _ (hnd ℓ') (hnd ℓ'))]
-    by_cases hmem : Elem.m2l ℓ' i (anc D L ℓ' b) (m2lCode D ℓ' i (anc D L ℓ' b)) ∈ specM2LLevel D false ℓ' (cellsAt ℓ') (cellsAt ℓ')
+    rw [e, sumOver_indicator _ (specM2L_np_nodup D ℓ' _ _ (hndT ℓ') (hndS ℓ'))]
+    by_cases hmem : Elem.m2l ℓ' i (anc D L ℓ' b) (m2lCode D ℓ' i (anc D L ℓ' b)) ∈ specM2LLevel D false ℓ' (cellsT ℓ') (cellsS ℓ')
     · simp [hmem]
     · simp [hmem]
   · rw [if_neg h]
@@ -74,21 +74,21 @@ theorem spec_level_sum (s : State) (ℓ' ℓ i : Nat) (hm : ∀ j, s.m ℓ' j = 
 
 /-- **transfer phase**: with the multipoles as left by the upward pass and empty locals, the locals become `Aval` -/
 theorem m2l_phase_eval (u : Nat) (hu : u ≤ L) (cs : List Call) (hform : ∀ c ∈ cs, ∃ lv t srcs, c = .m2l lv t srcs)
-    (helems : (cs.flatMap elemsOfCall).Perm ((List.range' u (L + 1 - u)).flatMap fun ℓ => specM2LLevel D false ℓ (cellsAt ℓ) (cellsAt ℓ)))
+    (helems : (cs.flatMap elemsOfCall).Perm ((List.range' u (L + 1 - u)).flatMap fun ℓ => specM2LLevel D false ℓ (cellsT ℓ) (cellsS ℓ)))
     (s : State) (hm : ∀ ℓ j, u ≤ ℓ → ℓ ≤ L → s.m ℓ j = if j = anc D L ℓ b then 1 else 0) (hl : ∀ lv i, s.l lv i = 0) :
-    (∀ ℓ i, (applyCalls (wq q) L po po s cs).l ℓ i = Aval D L u cellsAt b ℓ i) ∧
-    (∀ lv i, (applyCalls (wq q) L po po s cs).m lv i = s.m lv i) ∧ (∀ p, (applyCalls (wq q) L po po s cs).r p = s.r p) := by
-  obtain ⟨h1, h2, h3⟩ := phase_m2l (wq q) L po cs hform s
+    (∀ ℓ i, (applyCalls (wq q) L po po' s cs).l ℓ i = Aval D L u cellsT cellsS b ℓ i) ∧
+    (∀ lv i, (applyCalls (wq q) L po po' s cs).m lv i = s.m lv i) ∧ (∀ p, (applyCalls (wq q) L po po' s cs).r p = s.r p) := by
+  obtain ⟨h1, h2, h3⟩ := phase_m2l (wq q) L po po' cs hform s
   refine ⟨?_, h2, h3⟩
   intro ℓ i
   rw [h1, hl, Nat.zero_add, sumOver_perm _ _ _ helems, sumOver_flatMap]
-  have e : sumOver (List.range' u (L + 1 - u)) (fun ℓ' => sumOver (specM2LLevel D false ℓ' (cellsAt ℓ') (cellsAt ℓ')) (cL s ℓ i)) =
+  have e : sumOver (List.range' u (L + 1 - u)) (fun ℓ' => sumOver (specM2LLevel D false ℓ' (cellsT ℓ') (cellsS ℓ')) (cL s ℓ i)) =
       sumOver (List.range' u (L + 1 - u)) (fun ℓ' => if ℓ' = ℓ then
-        (if Elem.m2l ℓ i (anc D L ℓ b) (m2lCode D ℓ i (anc D L ℓ b)) ∈ specM2LLevel D false ℓ (cellsAt ℓ) (cellsAt ℓ) then 1 else 0) else 0) := by
+        (if Elem.m2l ℓ i (anc D L ℓ b) (m2lCode D ℓ i (anc D L ℓ b)) ∈ specM2LLevel D false ℓ (cellsT ℓ) (cellsS ℓ) then 1 else 0) else 0) := by
     apply sumOver_congr
     intro ℓ' hℓ'
     rw [List.mem_range'_1] at hℓ'
-    exact spec_level_sum D L cellsAt b hnd s ℓ' ℓ i (fun j => hm ℓ' j hℓ'.1 (by omega))
+    exact spec_level_sum D L cellsT cellsS b hndT hndS s ℓ' ℓ i (fun j => hm ℓ' j hℓ'.1 (by omega))
   rw [e, sumOver_indicator _ (List.nodup_range' (step := 1))]
   unfold Aval
   simp only [List.mem_range'_1]
@@ -167,15 +167,15 @@ theorem results_eval (act : Bool) (cs : List Call) (hform : ∀ c ∈ cs, isResu
       (if Elem.p2p b a (p2pCode D L a b) ∈ specP2P D false L leaves then 1 else 0) +
       (if Elem.p2p a b (p2pCode D L b a) ∈ specP2P D false L leaves then 1 else 0) +
       ((if a = b then 1 else 0) - wq q p) := by
-  obtain ⟨h1, _, _⟩ := phase_results (wq q) L po cs hform s
+  obtain ⟨h1, _, _⟩ := phase_results (wq q) L po po cs hform s
   rw [h1, hr, Nat.zero_add, sumOver_perm _ _ _ helems, sumOver_append, sumOver_append]
   -- L2P
-  have e1 : sumOver (if act then leaves.map (fun i => Elem.l2p i (po i).length) else []) (cR (wq q) L po s p) = if act then s.l L a else 0 := by
+  have e1 : sumOver (if act then leaves.map (fun i => Elem.l2p i (po i).length) else []) (cR (wq q) L po po s p) = if act then s.l L a else 0 := by
     cases act
     · simp [sumOver]
     · simp only [if_true]
       rw [sumOver_map]
-      have : sumOver leaves ((cR (wq q) L po s p) ∘ fun i => Elem.l2p i (po i).length) =
+      have : sumOver leaves ((cR (wq q) L po po s p) ∘ fun i => Elem.l2p i (po i).length) =
           sumOver leaves (fun i => if i = a then s.l L i else 0) := by
         apply sumOver_congr
         intro i hi
@@ -183,10 +183,10 @@ theorem results_eval (act : Bool) (cs : List Call) (hform : ∀ c ∈ cs, isResu
         split <;> simp
       rw [this, sumOver_indicator _ hn, if_pos ha]
   -- mutual P2P
-  have e2 : sumOver (specP2P D false L leaves) (cR (wq q) L po s p) =
+  have e2 : sumOver (specP2P D false L leaves) (cR (wq q) L po po s p) =
       (if Elem.p2p b a (p2pCode D L a b) ∈ specP2P D false L leaves then 1 else 0) +
       (if Elem.p2p a b (p2pCode D L b a) ∈ specP2P D false L leaves then 1 else 0) := by
-    have : sumOver (specP2P D false L leaves) (cR (wq q) L po s p) =
+    have : sumOver (specP2P D false L leaves) (cR (wq q) L po po s p) =
         sumOver (specP2P D false L leaves) (fun e => (if e = Elem.p2p b a (p2pCode D L a b) then 1 else 0) + (if e = Elem.p2p a b (p2pCode D L b a) then 1 else 0)) := by
       apply sumOver_congr
       intro e he
@@ -199,9 +199,9 @@ theorem results_eval (act : Bool) (cs : List Call) (hform : ∀ c ∈ cs, isResu
     · by_cases h : Elem.p2p b a (p2pCode D L a b) ∈ specP2P D false L leaves <;> simp [h]
     · by_cases h : Elem.p2p a b (p2pCode D L b a) ∈ specP2P D false L leaves <;> simp [h]
   -- in-leaf P2P
-  have e3 : sumOver (leaves.map Elem.p2pInner) (cR (wq q) L po s p) = (if a = b then 1 else 0) - wq q p := by
+  have e3 : sumOver (leaves.map Elem.p2pInner) (cR (wq q) L po po s p) = (if a = b then 1 else 0) - wq q p := by
     rw [sumOver_map]
-    have : sumOver leaves ((cR (wq q) L po s p) ∘ Elem.p2pInner) =
+    have : sumOver leaves ((cR (wq q) L po po s p) ∘ Elem.p2pInner) =
         sumOver leaves (fun i => if i = a then (sumW (wq q) (po i) - wq q p) else 0) := by
       apply sumOver_congr
       intro i hi
